@@ -297,6 +297,9 @@ func (c *FnCtx) assign(st *State, lhs ast.Expr, val *Term) {
 			}
 			c.unsupportedf(lhs, "assignment to selector")
 		}
+		if g := c.rootGlobal(l.X); g != nil && !c.allowGlobalWrite {
+			c.oblige(st, "frame:global", lhs, "", "write into package-level variable "+g.Name(), tFalse)
+		}
 		path := sel.Index()
 		baseT := c.typeOf(l.X)
 		// navigate to the struct that directly holds the field
@@ -331,6 +334,9 @@ func (c *FnCtx) assign(st *State, lhs ast.Expr, val *Term) {
 		c.assign(st, l.X, c.structSet(base, s, path[0], val))
 	case *ast.IndexExpr:
 		xt := c.typeOf(l.X)
+		if g := c.rootGlobal(l.X); g != nil && !c.allowGlobalWrite {
+			c.oblige(st, "frame:global", lhs, "", "write into package-level variable "+g.Name(), tFalse)
+		}
 		switch u := types.Unalias(xt).Underlying().(type) {
 		case *types.Map:
 			m := c.eval(st, l.X)
@@ -1451,4 +1457,33 @@ func (c *FnCtx) unaliasedMake(v *types.Var) bool {
 		return true
 	})
 	return ok
+}
+
+
+// rootGlobal: the package-level variable an lvalue expression is rooted in (g[i], g.f, g.f[i], ...), if any.
+func (c *FnCtx) rootGlobal(e ast.Expr) *types.Var {
+	for {
+		switch y := ast.Unparen(e).(type) {
+		case *ast.Ident:
+			if v, ok := c.info.ObjectOf(y).(*types.Var); ok && c.isGlobal(v) {
+				return v
+			}
+			return nil
+		case *ast.SelectorExpr:
+			if sel, ok := c.info.Selections[y]; ok && sel.Kind() == types.FieldVal {
+				e = y.X
+				continue
+			}
+			if v, ok := c.info.ObjectOf(y.Sel).(*types.Var); ok && c.isGlobal(v) {
+				return v
+			}
+			return nil
+		case *ast.IndexExpr:
+			e = y.X
+		case *ast.StarExpr:
+			e = y.X
+		default:
+			return nil
+		}
+	}
 }
